@@ -1245,7 +1245,25 @@ pub fn o_api(plan: &Plan, out: &Outcome, vs: &mut Vec<Violation>) {
         }
         let Some(ai) = m.act_index else { continue };
         let recs: Vec<_> = out.w.api.iter().filter(|r| r.act as usize == ai).collect();
-        if m.expect_api_err {
+        if m.expect_api_err && m.ends.is_none() && m.recover.is_none() {
+            // refused-and-retried value: that one call must fail, every other call must succeed
+            let reached = out.w.act_next > ai && !matches!(out.end, RunEnd::Panic { .. });
+            let failed = recs.iter().filter(|r| !r.ok).count();
+            if reached && failed == 0 && recs.iter().any(|r| r.call == "start") {
+                vs.push(v(
+                    "contradiction-accepted",
+                    "refused value retried",
+                    format!("unit {}: a value the column / protocol cannot carry was accepted", i + 1),
+                ));
+            } else if failed > 1 {
+                let bad = recs.iter().filter(|r| !r.ok).nth(1).unwrap();
+                vs.push(v(
+                    "api-call-failed",
+                    format!("{} after a refused value", bad.call),
+                    format!("unit {}: after one refused value, {}() failed too: {}", i + 1, bad.call, bad.detail),
+                ));
+            }
+        } else if m.expect_api_err {
             // a panic before the contradicting call says nothing about the contradiction
             let reached = out.w.act_next > ai && !matches!(out.end, RunEnd::Panic { .. });
             if reached && !recs.iter().any(|r| !r.ok) {
@@ -1281,6 +1299,7 @@ fn contra_name(plan: &Plan, i: usize) -> String {
                         Contra::TooManyCols { .. } => "too many cols",
                         Contra::NullIntoNotNull { .. } => "null into not null",
                         Contra::WrongKind { .. } => "wrong kind",
+                        Contra::RefusedRetry { .. } => "refused value retried",
                     }
                     .to_string();
                 }
